@@ -38,6 +38,9 @@ def record_sets(draw, max_records=14, allow_bad=True, allow_unlisted=True):
     if draw(st.integers(0, 7)) == 0:
         s = draw(st.sampled_from([1000, 100000]))
         bt = dict(bt, edges=[[x * s for x in e] for e in bt["edges"]], b=bt["b"] * s)
+    if draw(st.integers(0, 5)) == 0:
+        # Ensembl-style, purely numeric sequence names
+        bt = dict(bt, names=[str(t + 1) for t in range(len(bt["names"]))])
     names = bt["names"]
 
     def pos_for(ci, bad):
@@ -349,7 +352,9 @@ def cli_load_cases(draw):
     return {"part": "cli_load", "bt": bt, "records": recs, "fmt": fmt, "one_based": draw(st.booleans()),
             "copy": draw(st.sampled_from(["unique", "unique", "duplex", "square"])),
             "chunksize": draw(st.sampled_from([1, 2, 3, 1000])), "perm": draw(st.integers(0, 2**16)),
-            "bins_as": draw(st.sampled_from(["bed", "chromsizes"])), "bad": bad, "bad_side": draw(st.integers(0, 1))}
+            "bins_as": draw(st.sampled_from(["bed", "chromsizes"])), "bad": bad, "bad_side": draw(st.integers(0, 1)),
+            # a leading record-id column shifts every positional column: the format's own fields are overridden with --field
+            "shift": draw(st.sampled_from([0, 0, 1, 2]))}
 
 
 def check_cli_load(case, ctx: Ctx):
@@ -360,6 +365,7 @@ def check_cli_load(case, ctx: Ctx):
     br = model.bins_rows(bt)
     lens = dict(zip(bt["names"], [e[-1] for e in bt["edges"]]))
     lines, want = [], {}
+    bad_dropped_as_lower = False
     for t, (b1, b2, cnt) in enumerate(recs):
         bad = case["bad"] if t == 0 else None
         if fmt == "coo":
@@ -368,6 +374,10 @@ def check_cli_load(case, ctx: Ctx):
                 ids[case["bad_side"]] = -1
             elif bad == "beyond":
                 ids[case["bad_side"]] = n
+            if bad and tril == "drop" and ids[0] > ids[1]:
+                # in duplex mode every lower-triangle record is discarded as selected - including this one, whose
+                # out-of-range id makes it a lower-triangle record; discarding it is not a mis-assignment
+                bad_dropped_as_lower = True
             lines.append(f"{ids[0] + sh}\t{ids[1] + sh}\t{cnt}")
         else:
             side = [[br[b1][0], br[b1][1], br[b1][2]], [br[b2][0], br[b2][1], br[b2][2]]]
@@ -390,12 +400,17 @@ def check_cli_load(case, ctx: Ctx):
     try:
         bins_arg = _write_bins(d, bt, case["bins_as"])
         txt = os.path.join(d, "in.txt")
+        sh_cols = case.get("shift", 0)
         with open(txt, "w") as f:
             f.write("# comment line\n")
             for t in order:
-                f.write(lines[t] + "\n")
+                f.write("".join(f"id{t}_{k}\t" for k in range(sh_cols)) + lines[t] + "\n")
         out = os.path.join(d, "out.cool")
         args = ["load", "-f", fmt, bins_arg, txt, out, "--chunksize", str(chunksize)]
+        if sh_cols:
+            pos = ["bin1_id", "bin2_id", "count"] if fmt == "coo" else ["chrom1", "start1", "end1", "chrom2", "start2", "end2", "count"]
+            for k, nm in enumerate(pos):
+                args += ["--field", f"{nm}={k + 1 + sh_cols}"]
         if case["one_based"]:
             args.append("--one-based")
         if case["copy"] == "duplex":
@@ -403,8 +418,11 @@ def check_cli_load(case, ctx: Ctx):
         if case["copy"] == "square":
             args.append("-N")
         rc, _, exc = run_cli(args)
-        if case["bad"] in ("neg", "beyond"):
+        if case["bad"] in ("neg", "beyond") and not bad_dropped_as_lower:
             check(rc != 0, f"cooler load -f {fmt} accepted a record outside the matrix/chromosome ({case['bad']})")
+            ctx.record(case, True, ["cli_load", "invalid-rejected", "fmt=" + fmt])
+            return
+        if bad_dropped_as_lower and rc != 0:
             ctx.record(case, True, ["cli_load", "invalid-rejected", "fmt=" + fmt])
             return
         if case["bad"] == "eq-len":
@@ -421,7 +439,8 @@ def check_cli_load(case, ctx: Ctx):
     finally:
         ctx.clean(d)
     ctx.record(case, len(recs) >= 2 and any(r[0] > r[1] for r in recs),
-               ["cli_load", "fmt=" + fmt, "copy=" + case["copy"], f"chunksize={chunksize}", "one-based" if sh else "zero-based"])
+               ["cli_load", "fmt=" + fmt, "copy=" + case["copy"], f"chunksize={chunksize}", "one-based" if sh else "zero-based",
+                f"shifted-columns={case.get('shift', 0)}"])
 
 
 # ---------------------------------------------------------------------------
